@@ -1,0 +1,35 @@
+//go:build verif
+
+package managers
+
+import (
+	mqtt "github.com/eclipse/paho.mqtt.golang"
+	"github.com/orda-io/orda/client/pkg/errors"
+	"github.com/orda-io/orda/client/pkg/model"
+)
+
+// VerifSetClients injects the service stub and (for realtime clients) the MQTT client.
+// Verification hook: compiled only with -tags verif.
+func (its *SyncManager) VerifSetClients(svc model.OrdaServiceClient, mq mqtt.Client) {
+	its.serviceClient = svc
+	if its.notifyManager != nil && mq != nil {
+		its.notifyManager.client = mq
+	}
+}
+
+// VerifConnect does what Connect does without dialing gRPC.
+func (its *SyncManager) VerifConnect() errors.OrdaError {
+	if its.notifyManager != nil {
+		if err := its.notifyManager.Connect(); err != nil {
+			return err
+		}
+	}
+	return nil
+}
+
+// VerifClose does what Close does without a gRPC connection.
+func (its *SyncManager) VerifClose() {
+	if its.notifyManager != nil {
+		its.notifyManager.Close()
+	}
+}
